@@ -1,13 +1,15 @@
 #!/bin/bash
-# applies every agent mutant in its worktree, runs the property's quick check against it, reverts
-for wt in /tmp/mut/C??; do
-  P=$(basename $wt)
-  for v in A B; do
+# eval_all_mutants.sh [mutroot] [outroot] [props...]: applies every agent mutant in its worktree, runs the property's quick check against it, reverts
+ROOT=${1:-/tmp/mut}; OUTROOT=${2:-/tmp/mutout}; shift; shift
+LIST=${@:-$(ls $ROOT | grep -E '^C[0-9]+$')}
+for P in $LIST; do
+  wt=$ROOT/$P
+  for v in A B C; do
     pd=$wt/mutant/$v/patch.diff
-    [ -f $pd ] || { echo "$P $v no patch"; continue; }
+    [ -f $pd ] || continue
     git -C $wt checkout -q -- src 2>/dev/null
     if ! git -C $wt apply $pd 2>/dev/null; then echo "$P $v patch does not apply"; continue; fi
-    OUT=/tmp/mutout/${P}_$v; mkdir -p $OUT
+    OUT=$OUTROOT/${P}_$v; mkdir -p $OUT
     VERIF_REPO=$wt VERIF_OUT=$OUT timeout 1800 /venv/bin/python /verif/run.py $P --tier quick > $OUT/$P.log 2>&1; rc=$?
     echo "$P $v rc=$rc $(grep -c '^VIOLATION' $OUT/$P.log) viol; $(grep -E '^\s+\[C' $OUT/$P.log | head -3 | tr '\n' ' ' | cut -c1-200)"
     git -C $wt checkout -q -- src
